@@ -68,7 +68,7 @@ def plainEvent : Event α → Bool
   | .mergeEnd _ => false
   | _ => true
 
-theorem okRun_of_plain (s : WState α) (es : List (Event α)) (h : es.all plainEvent = true) : okRun s es := by
+theorem C02_okRun_of_plain (s : WState α) (es : List (Event α)) (h : es.all plainEvent = true) : okRun s es := by
   induction es generalizing s with
   | nil => trivial
   | cons e es ih =>
@@ -104,7 +104,7 @@ theorem C02_commit_refines_replay_partial [DecidableEq α] (n : Nat) (es : List 
 theorem C02_commit_refines_replay_plain [DecidableEq α] (n : Nat) (es : List (Event α)) (s : WState α)
     (hrun : run (WState.init n) es = some s) (hplain : es.all plainEvent = true) :
     List.Perm (published s) (replay (history es)).committed :=
-  (C02_commit_refines_replay_partial n es s hrun (okRun_of_plain _ es hplain)).1
+  (C02_commit_refines_replay_partial n es s hrun (C02_okRun_of_plain _ es hplain)).1
 
 /-- the sound core (one logical segment, per-document opstamps, the delete queue, the rule of
 `compute_deleted_bitset` applied at commit): for **every** history, with stamps drawn by
